@@ -293,6 +293,12 @@ func (s *Stream) Close() error {
 // close the stream. after close stream, any operation will return ErrStreamClosed.
 // unread data will be drained and released.
 func (s *Stream) close() error {
+	return s.closeAndWait(true)
+}
+
+// closeAndWait closes the stream. waitCallback is false only when it is called by the callback goroutine itself,
+// which cannot wait for its own end.
+func (s *Stream) closeAndWait(waitCallback bool) error {
 	oldState := s.getStreamState()
 	for {
 		if oldState == uint32(streamClosed) {
@@ -305,7 +311,7 @@ func (s *Stream) close() error {
 		oldState = s.getStreamState()
 	}
 
-	if s.getCallbacks() != nil {
+	if waitCallback && s.getCallbacks() != nil {
 		s.asyncGoroutineWg.Wait()
 	}
 	s.clean()
@@ -427,8 +433,10 @@ func (s *Stream) fillDataToReadBuffer(buf bufferSliceWrapper) error {
 
 					atomic.StoreUint32(&s.callbackInProcess, 0)
 					if atomic.LoadUint32(&s.callbackCloseState) == uint32(callbackWaitExit) {
+						// the goroutine only counts as finished once the stream is closed: Session.Close waits for it
+						// before it unmaps the share memory which clean() still recycles into.
+						s.closeAndWait(false)
 						s.asyncGoroutineWg.Done()
-						s.close()
 						return
 					}
 
